@@ -424,7 +424,7 @@ impl Prop for C02 {
         "C02"
     }
     fn cases(&self) -> (u64, u64) {
-        (120_000, 3_000_000)
+        (400_000, 3_000_000)
     }
     fn rule(&self) -> &'static str {
         "choice bytes -> broad definition (alternatives, groups, adjacent groups, hidden items, \
